@@ -416,6 +416,35 @@ func sectionRules(P *Program, r *Result, ruleErr, ruleMap string) {
 				continue
 			}
 			_, neq := nilTests(ev)
+			// the arms of the dispatch may share one test after the switch: the error then reaches it through a join,
+			// which on the edge coming from this call carries exactly this error, and is tested where the join is
+			if len(neq) == 0 {
+				if refs := ev.Referrers(); refs != nil {
+					for _, ref := range *refs {
+						ph, isPhi := ref.(*ssa.Phi)
+						if !isPhi {
+							continue
+						}
+						carries := false
+						for i, p := range ph.Block().Preds {
+							if ph.Edges[i] == ev && (p == cc.Block() || cc.Block().Dominates(p)) {
+								carries = true
+							}
+						}
+						if !carries {
+							continue
+						}
+						_, pneq := nilTests(ph)
+						for _, t := range pneq {
+							for _, ce := range testsOf(t) {
+								if ce.If.Block() == ph.Block() {
+									neq = append(neq, t)
+								}
+							}
+						}
+					}
+				}
+			}
 			tested := len(neq) > 0
 			okAll := tested
 			detail := ""
